@@ -386,6 +386,7 @@ def generate_integration(seed, prop, tier, index=0):
             v = int(v) if isinstance(st["duration"], int) else float(round(v, 3) if not dyadic else v)
             add(rng.choice(["wait", "wait", "robot.disabledPeriodic", "robot.robotPeriodic"]), rng.randint(1, cap), ["ntdur", owner, st["name"], v])
     # who calls engage()
+    style = "always"
     if prop in ("C01", "C02", "C03", "C04") and not as_mode:
         srcs = ["robot.teleopPeriodic"] + ([f"mode.{modes[0]['name']}.on_iteration"] if modes else [])
         style = rng.choice(["always", "always", "bursts", "sparse"])
@@ -399,6 +400,12 @@ def generate_integration(seed, prop, tier, index=0):
                         on = not on
                     if on:
                         add(src, v, ["engage", owner])
+    if prop != "C15" and style == "always" and (cfg["fms"] or rng.random() < 0.15) and rng.random() < 0.3:
+        # a state function of the embedded machine raises (after doing what it does).  With the FMS attached the fault is
+        # swallowed by the framework and the machine carries on in the next loop; engage() comes every loop in these runs,
+        # so whether the abandoned iteration used up the request cannot be observed
+        for _ in range(rng.choice([1, 1, 2])):
+            add(f"{owner}.st.{rng.choice(regular)}", rng.choice([1, 1, 2, rng.randint(1, 10)]), ["raise"])
     if cfg["fms"] and rng.random() < 0.6:
         # with the FMS attached other callbacks may raise around the machine (swallowed): it must not notice
         fs = [s for s in per["execute"] + per["lifecycle"] + per["init"] + per["periodic"] if not s.startswith(owner + ".")]
@@ -510,6 +517,12 @@ def generate(seed, prop, tier, index=0):
         for _ in range(rng.choice([1, 2, 3])):
             add(rng.choice(["robot.disabledPeriodic", "robot.disabledPeriodic", "robot.disabledInit", "robot.teleopInit", "robot.testPeriodic"]),
                 rng.randint(1, 8), ["utia", int(rng.random() < 0.5)])
+    # ---- control_loop_wait_time assigned at run time: the next mode session runs at the new period
+    if rng.random() < (0.25 if prop == "C05" else 0.05):
+        for _ in range(rng.choice([1, 2])):
+            newp = (rng.choice([1, 2, 3, 4]) / 64.0) if cfg["dyadic"] else rng.choice([0.02, 0.01, 0.005, 0.05, 0.025])
+            add(rng.choice(["wait", "wait", "robot.disabledPeriodic", "robot.teleopPeriodic", "robot.robotPeriodic", "robot.teleopInit", "robot.autonomousInit"]
+                           + sites["execute"]), rng.randint(1, max(2, cap - 1)), ["period", newp])
     # ---- FMS cable plugged / unplugged at a wake-up
     if rng.random() < 0.15:
         add("wait", rng.randint(1, cap), ["ds", 1, rng.choice(["teleop", "auto"]), int(rng.random() < 0.5)])
@@ -999,6 +1012,10 @@ class _Sim:
             elif k == "autosel":
                 self.autosel_pub.set(a[1])
                 self.fault("dashboard_auto_selector")
+            elif k == "period":
+                if self.robot is not None:
+                    self.robot.control_loop_wait_time = a[1]
+                    self.fault("control_loop_wait_time_changed_at_run_time")
             elif k == "utia":
                 if self.robot is not None:
                     self.robot.use_teleop_in_autonomous = bool(a[1])
@@ -1100,6 +1117,8 @@ class _Sim:
             if r:
                 self.fault("callback_raises_non_Exception" if r == "base" else "callback_raises")
                 do_raise = r
+        except (SimFault, SimFaultBase):
+            raise           # injected in a nested state function (next_state_now inside this callback): passes through
         except Exception:
             self.harness_fail()
         if do_raise == "base":
